@@ -25,6 +25,7 @@ OPS = ['Create', 'CreateKeyPair', 'Register', 'DeriveKey', 'Locate', 'Get',
        'DeleteAttribute', 'Unsupported']
 STATES = ['PreActive', 'Active', 'Deactivated', 'Compromised']
 NPARAM = 6
+ATTR_SWEEP = 3 * 7 * 6     # operation x object type x version
 GRID = len(OPS) * len(gen.OTYPES) * len(STATES) * len(gen.VERSIONS) * NPARAM
 COUNT = {'quick': 5200, 'thorough': GRID + 30000}
 SWEEP = {'quick': 4200, 'thorough': GRID}
@@ -39,7 +40,7 @@ RULE = ('grid cell = (operation of 22, stored object type of 7, state of 4, '
         'handler met an object type it was not written for, or an '
         'attribute outside the rule table, or an unsupported parameter. '
         'Distinct = (cell | history digest).' % (GRID, SWEEP['quick']))
-PROBES = ['cell_valid', 'cell_foreign_type', 'cell_unknown_attribute',
+PROBES = ['attribute_table_sweep', 'cell_valid', 'cell_foreign_type', 'cell_unknown_attribute',
           'cell_unsupported_parameter', 'cell_out_of_range',
           'request_not_decodable', 'success', 'specific_error']
 REAL_VS_STUB = {
@@ -319,6 +320,8 @@ def variant(name, otype, ver, p, r, ctx):
              3: r.choice(['Contact Information', 'Activation Date']),
              4: r.choice(multi), 5: r.choice(['State', 'Unique Identifier',
                                               'Operation Policy Name'])}[p]
+        if r.random() < 0.4:
+            return {'op': 'SetAttribute', 'uid': ref, 'new': any_attribute(r)}
         return {'op': 'SetAttribute', 'uid': ref, 'new': attr_for(n, r)}
     if name == 'ModifyAttribute':
         n = {0: r.choice(multi), 1: 'Sensitive', 2: 'Certificate Type',
@@ -326,6 +329,18 @@ def variant(name, otype, ver, p, r, ctx):
                           'Cryptographic Parameters', 'Activation Date']),
              4: r.choice(['Digest', 'Usage Limits', 'Lease Time']),
              5: r.choice(multi)}[p]
+        if r.random() < 0.4:
+            # any attribute of the table on any object type
+            a = any_attribute(r)
+            if v2:
+                op = {'op': 'ModifyAttribute', 'uid': ref, 'new': a}
+                if r.random() < 0.5:
+                    op['cur'] = dict(a)
+                return op
+            a['i'] = r.choice([None, 0, 0, 1])
+            if a['i'] is None:
+                a.pop('i')
+            return {'op': 'ModifyAttribute', 'uid': ref, 'attr': a}
         if v2:
             op = {'op': 'ModifyAttribute', 'uid': ref, 'new': attr_for(n, r)}
             if p in (0, 5):
@@ -351,6 +366,16 @@ def variant(name, otype, ver, p, r, ctx):
                           'Cryptographic Parameters', 'Usage Limits']),
              4: r.choice(['Sensitive', 'State', 'Digest']),
              5: r.choice(multi)}[p]
+        if r.random() < 0.4:
+            a = any_attribute(r)
+            if v2:
+                if r.random() < 0.5:
+                    return {'op': 'DeleteAttribute', 'uid': ref, 'cur': a}
+                return {'op': 'DeleteAttribute', 'uid': ref, 'ref': a['n']}
+            op = {'op': 'DeleteAttribute', 'uid': ref, 'name': a['n']}
+            if r.random() < 0.5:
+                op['index'] = r.choice([0, 1])
+            return op
         if v2:
             op = {'op': 'DeleteAttribute', 'uid': ref}
             if p in (0, 5):
@@ -382,6 +407,21 @@ def second_instance(n):
     if n == 'Object Group':
         return A(n, 'xgroup2')
     return A(n, ['xns2', 'xdata2'])
+
+
+SIMPLE_KINDS = {'text': 'text', 'enum': 1, 'int': 12, 'bool': True,
+                'date': 1600000000, 'interval': 60, 'name': ['n', 1],
+                'asi': ['ns', 'd'], 'cp': {'mode': 1}, 'link': [0x101, '1']}
+
+
+def any_attribute(r):
+    """An attribute of the whole attribute table (every name the request
+    language can encode), with a value of its declared type."""
+    from sim import reqs
+    names = sorted(n for n, (tag, kind) in reqs.ATTRS.items()
+                   if kind in SIMPLE_KINDS)
+    n = r.choice(names)
+    return A(n, SIMPLE_KINDS[reqs.ATTRS[n][1]])
 
 
 def attr_for(n, r, existing=False):
@@ -455,6 +495,49 @@ def generate(rng, tier, index):
                       'probe': True})
         return {'actors': [{'cn': 'owner'}], 'seed': r.randrange(1 << 30),
                 'steps': steps, 'cell': [name, otype, state, list(ver), p]}
+    if index < SWEEP[tier] + ATTR_SWEEP:
+        # the attribute table, complete: every attribute name the request
+        # language can encode x {Set, Modify, Delete} x object type x
+        # version, on one prepared object per plan
+        from sim import reqs
+        j = index - SWEEP[tier]
+        j, oi = divmod(j, len(gen.OTYPES))
+        j, vi = divmod(j, len(gen.VERSIONS))
+        opname = ['ModifyAttribute', 'DeleteAttribute', 'SetAttribute'][j]
+        otype, ver = gen.OTYPES[oi], gen.VERSIONS[vi]
+        if opname == 'SetAttribute':
+            ver = (2, 0)
+        v2 = ver >= (2, 0)
+        ctx = gen.Ctx(r, nactors=1)
+        steps = setup_steps(otype, r.choice(STATES), r, ctx)
+        for n in sorted(x for x, (tg, kd) in reqs.ATTRS.items()
+                        if kd in SIMPLE_KINDS):
+            a = A(n, SIMPLE_KINDS[reqs.ATTRS[n][1]])
+            if opname == 'SetAttribute':
+                op = {'op': opname, 'uid': '@x', 'new': a}
+            elif opname == 'ModifyAttribute':
+                if v2:
+                    op = {'op': opname, 'uid': '@x', 'new': a}
+                    if r.random() < 0.5:
+                        op['cur'] = dict(a)
+                else:
+                    if r.random() < 0.5:
+                        a['i'] = 0
+                    op = {'op': opname, 'uid': '@x', 'attr': a}
+            else:
+                if v2:
+                    op = {'op': opname, 'uid': '@x', 'cur': a} \
+                        if r.random() < 0.5 else \
+                        {'op': opname, 'uid': '@x', 'ref': n}
+                else:
+                    op = {'op': opname, 'uid': '@x', 'name': n}
+                    if r.random() < 0.5:
+                        op['index'] = 0
+            steps.append({'actor': 0, 'ver': list(ver), 'items': [op],
+                          'probe': True})
+        return {'actors': [{'cn': 'owner'}], 'seed': r.randrange(1 << 30),
+                'steps': steps, 'cell': None,
+                'attr_sweep': [opname, otype, list(ver)]}
     ctx = gen.Ctx(r, nactors=2)
     steps = []
     for _ in range(r.randint(6, 20)):
@@ -538,6 +621,8 @@ def execute(plan):
                      version=st['ver'], item=st['items'][0])
             elif gf or internal:
                 ename, eline, where = last_exception()
+                if plan.get('attr_sweep'):
+                    otype = plan['attr_sweep'][1]
                 flag('general-failure', op=opname, otype=otype,
                      exception=ename, param_class=pcls, error=eline,
                      site=where, version=st['ver'], item=st['items'][0],
@@ -550,6 +635,8 @@ def execute(plan):
                         probes['specific_error'] += 1
             trace.append(None if resp is None else
                          [(i['status'], i['reason']) for i in resp.items])
+        if plan.get('attr_sweep'):
+            probes['attribute_table_sweep'] += 1
         if cell:
             name, otype, state, ver, p = cell
             probes[{0: 'cell_valid', 1: 'cell_valid',
